@@ -10,11 +10,11 @@ Proof. vm_cast_no_check (eq_refl true). Qed.
 (* K1, torn read: the get returns b"" (neither the initial contents nor any update), not linearizable, accounting off *)
 Definition chk_k1_torn (s : gstate) : bool :=
   negb (linearizable (cfg_disk cfg_get_upd) (rev (g_hist s)) (disk (g_core s))) && negb (final_agree s) &&
-  existsb (event_eqb (ERet 0 0 (RCont []))) (g_hist s) && (mem (g_core s) =? -2).
+  existsb (event_eqb (ERet 0 0 (RCont []))) (g_hist s) && (mem (g_core s) =? 2).
 Lemma k1_torn_ok : refutes gen_flags cfg_get_upd sch_k1_torn chk_k1_torn = true.
 Proof. vm_cast_no_check (eq_refl true). Qed.
 
-(* K1, accounting: history linearizable, but entry size 5 for 3 cached bytes and current_memory_usage 3 <> 5 *)
+(* K1, accounting: history linearizable, but entry size 5 for 7 cached bytes and current_memory_usage 7 <> 5 *)
 Definition chk_k1_acct (s : gstate) : bool :=
   linearizable (cfg_disk cfg_get_upd) (rev (g_hist s)) (disk (g_core s)) && negb (final_agree s) && negb (mem_agrees (g_core s)).
 Lemma k1_acct_ok : refutes gen_flags cfg_get_upd sch_k1_acct chk_k1_acct = true.
